@@ -9,6 +9,8 @@ def m(name, rule, key, file, old, new):
     return dict(name=name, kind='mutant', rule=rule, key=key, edits=[dict(file=file, old=old, new=new)])
 
 CASES = [
+    dict(name='revert-fix-stop_group', kind='mutant', rule='R3', key='', edits=[dict(file='pedal/core/report.py',
+         old="        if group in self.groups:\n            self.groups.remove(group)", new="        if self.groups:\n            self.groups.remove(group)")]),
     m('marker-partly-captured', 'R1', 'whole-match-captured', SE, "DEFAULT_SECTION_PATTERN = r'^(##### Part .+)$'", "DEFAULT_SECTION_PATTERN = r'^##### Part (.+)$'"),
     m('marker-no-group', 'R1', 'whole-match-captured', SE, "DEFAULT_SECTION_PATTERN = r'^(##### Part .+)$'", "DEFAULT_SECTION_PATTERN = r'^##### Part .+$'"),
     m('marker-two-groups', 'R1', 'whole-match-captured', SE, "DEFAULT_SECTION_PATTERN = r'^(##### Part .+)$'", "DEFAULT_SECTION_PATTERN = r'^(##### Part (.+))$'"),
